@@ -475,7 +475,9 @@ def fix_reimported_names(source: str) -> str:
 
             referenced_name = asname if asname else name
 
-            if trace_result := trace_origin(name, module_source, __all__=True):
+            if name == "*":
+                node_names.append(alias)  # Everything the module binds, not a single reimported name
+            elif trace_result := trace_origin(name, module_source, __all__=True):
                 *_, module_import_node = trace_result
                 if isinstance(module_import_node, ast.ImportFrom) and (
                     module_import_node.level or module_import_node.module is None
